@@ -3,6 +3,7 @@ package zsim
 import (
 	"encoding/json"
 	"fmt"
+	"math/rand"
 	"os"
 	"path/filepath"
 	"sort"
@@ -121,6 +122,9 @@ func (h *Harness) runOnce(t *testing.T, seed int64, tier string, tapes *[3][]int
 	if h.Setup != nil {
 		h.Setup()
 	}
+	// dependencies that draw from math/rand's global source (go-redis retry
+	// back-off jitter) must not depend on what earlier runs consumed
+	rand.Seed(seed)
 	r.execute(t, h.Run)
 	r.finished = true
 	if h.Post != nil && r.violClass == "" && !r.Stuck && !r.StepLimit {
@@ -319,6 +323,9 @@ func Main(t *testing.T, h Harness) {
 		}
 		r := h.runOnce(t, s, tier, nil)
 		res.Runs++
+		if d := os.Getenv("ZSIM_DUMP"); d != "" {
+			os.WriteFile(filepath.Join(d, fmt.Sprintf("%d.log", s)), []byte(strings.Join(r.log, "\n")+"\n"), 0o644)
+		}
 		res.Steps += int64(r.steps)
 		res.SchedPoints += int64(r.schedPts)
 		res.SimTimeNs += int64(r.simEnd())
